@@ -335,7 +335,10 @@ func init() {
 					p.CancelInSetup = (k/5)%2 == 0
 				}
 				if k%3 == 2 {
-					p.SetupMark = r.IntN(2) == 0
+					// (not together with an iteration that never finishes: the run's teardown would then write the
+					// setup handle's state without any ordering against that worker's earlier use of the handle - a
+					// race of the scenario program's making, not a verdict matter)
+					p.SetupMark = r.IntN(2) == 0 && !p.Hang
 					// an otherwise tolerated (or clean) run whose scenario-level cleanup fails
 					p.Teardown = pick(r, engine.BFail, engine.BFailNow, engine.BErrorf, engine.BPanicString, engine.BRequire)
 					if r.IntN(2) == 0 {
